@@ -19,6 +19,42 @@ RULE = ("seeded single-argument worlds over the configuration lattice: home on /
         "first time at the same moment (interleaved call by call): each succeeds, into the prescribed directory")
 
 
+def twin_mount_world(seed, i):
+    """two volumes whose mount points differ only in how an accent is spelled (precomposed / base letter + combining mark):
+    two names, two directories, two volumes.  HOME (and its trash) on the first, the file on the second: the home trash is
+    not on the file's volume - the volume's own .Trash-$uid is"""
+    from ..model import W, put_argv
+    from ..runner import task_rng
+    from ..sandbox import MODEL_ROOT as R
+    rng = task_rng("C07twin", seed, i)
+    w = W()
+    pair = [("caf\u00e9", "cafe\u0301"), ("\u00c5", "A\u030a"), ("\ud55c", "\u1112\u1161\u11ab")][i % 3]
+    a, b_ = (R + b"/mnt/" + x.encode() for x in (pair if (i // 3) % 2 == 0 else pair[::-1]))
+    w.dir(R + b"/mnt")
+    w.mount(a)
+    w.mount(b_)
+    home = w.dir(a + b"/home")
+    if i % 2:
+        t = home + b"/.local/share/Trash"
+        w.dir(t, 0o700)
+        w.dir(t + b"/files", 0o700)
+        w.dir(t + b"/info", 0o700)
+    d = w.dir(b_ + b"/stuff")
+    name = rng.choice([b"report.txt", b"a b"])
+    kind = rng.choice(["file", "tree"])
+    if kind == "file":
+        w.file(d + b"/" + name, b"data")
+    else:
+        w.file(d + b"/" + name + b"/in1", b"one")
+    opts = {}
+    if i % 4 == 3:
+        opts["trashDir"] = a + b"/ct"
+    cwd = rng.choice([d, home])
+    arg = d + b"/" + name if cwd != d else name
+    return w.world(env={"HOME": home}, uid=1000, cwd=cwd, cmd="put", args=[arg], opts=opts, argv=put_argv(opts, [arg]), stdin=None,
+                   randints=[1, 2, 3], meta=[{"class": "entry", "kind": kind, "spelling": "abs" if arg.startswith(b"/") else "rel", "entry": d + b"/" + name}])
+
+
 def run(tier, seed):
     ck = Check("C07", tier, seed)
     info = audit("C07")
@@ -29,6 +65,8 @@ def run(tier, seed):
     cfg_states = dict(CFG, states=True, violations=tuple(CFG["violations"]) + ("C07-private",))
     absorb(ck, "C07", run_tasks(eval_task, [{"pid": "C07s", "seed": seed, "i": i, "cfg": cfg_states} for i in range(80 if tier == "quick" else 1200)]),
            cfg_states, "Model.Put")
+    absorb(ck, "C07", run_tasks(eval_task, [{"pid": "C07twin", "seed": seed, "i": i, "cfg": CFG, "world": twin_mount_world(seed, i)}
+                                            for i in range(12 if tier == "quick" else 48)]), CFG, "Model.Put")
     search_failing_input(ck, "C07", seed, CFG, n, "Model.Put")
     # "created on demand": several trash-put processes using a trash directory for the first time at the same moment -
     # whoever loses the race to create it still finds it usable
